@@ -57,7 +57,31 @@ def plan(tier, seed):
             for h, (lab, d) in items:
                 jobs.append({"id": f"{cid}#{h}", "cid": cid, "labels": {"code.py": lab}, "files": {"code.py": b64(d)},
                              "argv": ["{proj}", "--output", "{out}", "--codemod-include", cid], "repeat": 2, "monitors": {"snap": False}})
-    jobs += sast_jobs(tier, seed) + django_jobs()
+    jobs += sast_jobs(tier, seed) + django_jobs() + family_jobs(tier, seed)
+    return jobs
+
+def family_jobs(tier, seed):
+    """the generated program families of vf.families (boolean templates, comparison chains, nested sites, import blocks, sql pieces ...) as extra grid inputs"""
+    from vf import families
+    rnd = random.Random(f"families:{seed}")
+    cases = families.all_cases(rnd, tier != "quick")
+    if tier == "quick":
+        by = collections.defaultdict(list)
+        for c in cases: by[(c["cid"], c["shape"], c["vclass"])].append(c)
+        cases = [x for k, v in sorted(by.items()) for x in (v if len(v) <= 4 else rnd.sample(v, 4))]
+    jobs = []; batch = collections.defaultdict(list)
+    for c in cases:
+        h = hashlib.sha1(c["src"].encode()).hexdigest()[:12]; lab = ("family", c["shape"], c["vclass"])
+        if corpus.is_semgrep_detected(c["cid"]): batch[c["cid"]].append((h, lab, c["src"]))
+        else:
+            jobs.append({"id": f"{c['cid']}#fam:{h}", "cid": c["cid"], "labels": {"code.py": lab}, "files": {"code.py": b64(c["src"].encode())},
+                         "argv": ["{proj}", "--output", "{out}", "--codemod-include", c["cid"]], "repeat": 2, "monitors": {"snap": False}})
+    for cid, items in sorted(batch.items()):
+        items = sorted(set(items))
+        for i in range(0, len(items), 50):
+            ch = items[i:i + 50]
+            jobs.append({"id": f"{cid}#fam:{i}", "cid": cid, "labels": {f"v_{h}.py": lab for h, lab, s_ in ch}, "files": {f"v_{h}.py": b64(s_.encode()) for h, lab, s_ in ch},
+                         "argv": ["{proj}", "--output", "{out}", "--codemod-include", cid], "repeat": 2, "monitors": {"snap": False}})
     return jobs
 
 FLAG = {"sonar": None, "semgrep": "--sarif", "defectdojo": "--defectdojo-findings-json"}
